@@ -22,7 +22,7 @@ var c02U = c02Universe{
 	ids:      []string{vk.HexOf("c02 id 0"), vk.HexOf("c02 id 1"), vk.HexOf("c02 id 2"), vk.HexOf("c02 id 3")},
 	authors:  []string{vk.FakePub(0), vk.FakePub(1), vk.FakePub(2)},
 	kinds:    []int64{0, 1, 5, 30000},
-	tagNames: []string{"e", "p", "t", "E", "client"},
+	tagNames: []string{"e", "p", "t", "E", "client", "expiration", "title", "pow", "Emoji"},
 	tagVals:  []string{"", "v1", "v2"},
 }
 
